@@ -60,14 +60,24 @@ class HashedIterable(Generic[T]):
     """
     iterable: Iterable[HashedValue[T]] = field(default_factory=list)
     values: Dict[int, HashedValue[T]] = field(default_factory=dict)
+    _source_: Any = field(default=None, init=False, repr=False)
+    """
+    What the items are taken from, kept to walk it again after a walk that was ended by an exception.
+    """
+    _interrupted_: bool = field(default=False, init=False, repr=False)
 
     def __post_init__(self):
         if self.iterable and not isinstance(self.iterable, HashedIterable):
-            self.iterable = (HashedValue(v) if not isinstance(v, HashedValue) else v for v in self.iterable)
+            self.set_iterable(self.iterable)
 
     def set_iterable(self, iterable):
         if iterable and not isinstance(iterable, HashedIterable):
-            self.iterable = (HashedValue(v) if not isinstance(v, HashedValue) else v for v in iterable)
+            self._source_ = iterable
+            self.iterable = self._hashed_values_of_(iterable)
+
+    @staticmethod
+    def _hashed_values_of_(iterable) -> Iterable[HashedValue[T]]:
+        return (HashedValue(v) if not isinstance(v, HashedValue) else v for v in iterable)
 
     def get(self, key: int, default: Any) -> HashedValue[T]:
         return self.values.get(key, default)
@@ -114,7 +124,21 @@ class HashedIterable(Generic[T]):
         :return: An iterator over the hashed values.
         """
         yield from self.values.values()
-        for v in self.iterable:
+        if self._interrupted_:
+            # the previous walk over the source was ended by an exception, what is memoised is not everything
+            self._interrupted_ = False
+            self.iterable = self._hashed_values_of_(self._source_)
+        pending = iter(self.iterable)
+        while True:
+            try:
+                v = next(pending)
+            except StopIteration:
+                break
+            except Exception:
+                # A generator is finished for good once an exception left it. The source (a collection, a query) is walked
+                # again next time, the items that are memoised already are skipped then.
+                self._interrupted_ = self._source_ is not None
+                raise
             if v.id_ in self.values:
                 # already memoised (and already yielded above), e.g. an object that is listed twice
                 continue
